@@ -325,3 +325,5 @@ def extra_checks(rng, tier, cov):
                 return
     cov['exhaustive_timing_histories'] = n
     cov['exhaustive_box'] = 'all histories of length <= %d over gaps {0,1/4,1/2,1}s x durations {0,1/4}s, no API key' % maxlen
+
+MODELLED_FUNCS = {'sugar/web/_entrez.py': ['Entrez.wait_before_request', 'Entrez.fetch_seq', 'Entrez.fetch_basket', 'Entrez.get_seq', 'Entrez.get_basket']}
